@@ -216,6 +216,38 @@ class Builder:
             return self.roles.get(v["param"])
         return None
 
+    def first_of(self, v: Any) -> Optional[str]:
+        """'byte' / 'char' when v is `s.bytes().next()`, `s.as_bytes().first()`, `s.as_bytes().get(0)` / `s.chars().next()`."""
+        v = peel(v)
+        if not (isinstance(v, dict) and v.get("k") == "mcall"):
+            return None
+        inner = peel(v.get("recv"))
+        if not (isinstance(inner, dict) and inner.get("k") == "mcall" and self.role(inner.get("recv")) == "str" and not inner["args"]):
+            return None
+        d, di = str(v.get("def") or ""), str(inner.get("def") or "")
+        if v["name"] == "next" and not v["args"] and d.endswith("Iterator::next"):
+            if di == "core::str::<impl str>::bytes":
+                return "byte"
+            if di == "core::str::<impl str>::chars":
+                return "char"
+        if di == "core::str::<impl str>::as_bytes":
+            if v["name"] == "first" and not v["args"]:
+                return "byte"
+            if v["name"] == "get" and len(v["args"]) == 1 and self.int_const(v["args"][0]) == 0:
+                return "byte"
+        return None
+
+    @staticmethod
+    def str_const(v: Any) -> Optional[str]:
+        """A string literal, or a path to a local `const X: &str = "lit"` (the driver attaches its literal)."""
+        v = peel(v)
+        if isinstance(v, dict):
+            if v.get("k") == "lit" and v.get("ty") == "str":
+                return v.get("v")
+            if v.get("k") == "path" and str(v.get("dk", "")).startswith("Const") and v.get("lit_str") is not None:
+                return v["lit_str"]
+        return None
+
     def is_strlen(self, v: Any) -> bool:
         v = peel(v)
         return isinstance(v, dict) and v.get("k") == "mcall" and v.get("def") == STR_LEN and self.role(v["recv"]) == "str"
@@ -440,8 +472,8 @@ class Builder:
             l, r = v["l"], v["r"]
             for a, b, flip in ((l, r, False), (r, l, True)):
                 o = _flip(op) if flip else op
-                if self.role(a) == "str" and H.is_str_lit(peel(b)) and op in ("==", "!="):
-                    return (("seq", H.lit_value(peel(b), "str")), op == "==")
+                if self.role(a) == "str" and self.str_const(b) is not None and op in ("==", "!="):
+                    return (("seq", self.str_const(b)), op == "==")
                 if self.is_strlen(a):
                     n = self.int_const(b)
                     if n is not None:
@@ -456,11 +488,16 @@ class Builder:
             if d == EQ_ICASE and len(v["args"]) == 1:
                 a, b = v["recv"], v["args"][0]
                 for x, y in ((a, b), (b, a)):
-                    if self.role(x) == "str" and H.is_str_lit(peel(y)):
-                        return (("sci", H.lit_value(peel(y), "str")), True)
+                    if self.role(x) == "str" and self.str_const(y) is not None:
+                        return (("sci", self.str_const(y)), True)
                 return None
             if d == STR_IS_EMPTY and self.role(v["recv"]) == "str":
                 return (("slen", "==", 0), True)
+            if d == "core::str::<impl str>::starts_with" and self.role(v["recv"]) == "str" and len(v["args"]) == 1:
+                a0 = peel(v["args"][0])
+                if isinstance(a0, dict) and a0.get("k") == "lit" and a0.get("ty") in ("str", "char") and a0.get("v") != "":
+                    return (("spre", a0["v"]), True)
+                return None
             if v.get("name") == "contains" and len(v["args"]) == 1 and str(d or "").startswith("core::ops::range::"):
                 subj = peel(v["args"][0])
                 subject = "slen" if self.is_strlen(subj) else ("int" if self.role(subj) == "int" else None)
@@ -547,6 +584,14 @@ class Builder:
             if role == "self":
                 f1 = fr.with_vpat(vp)
                 return self.br(("var", vp.variant), tk(f1), fk(fr), p)
+            fo = self.first_of(pv)
+            if fo is not None and pdef in (SOME, NONE):
+                if pdef == NONE:
+                    return self.br(("slen", "==", 0), tk(fr), fk(fr), p)
+                subs = vp.subs if vp.shape == "tuple" else []
+                if len(subs) != 1:
+                    raise Unrecognised("constructor pattern arity", p)
+                return self._first_pat(subs[0], fo, fr, tk, fk)
             pk = place_key(pv)
             if pk is not None and pdef is not None and _ctor_family(pdef) is not None:
                 # Option / Result stored in a place (a field of a parameter): the atom is "place holds Some" / "place holds Ok"
@@ -571,6 +616,8 @@ class Builder:
                 if n is not None:
                     return self.br(("int", "==", n), tk(fr), fk(fr), p)
             raise Unrecognised("variant pattern against a value that is not the receiver: " + H.brief(v, 80), p)
+        if k == "ppath" and role == "str" and self.str_const(p["path"]) is not None:
+            return self.br(("seq", self.str_const(p["path"])), tk(fr), fk(fr), p)
         if k == "ppath":
             n = self.int_const(p["path"])
             if n is not None and (role == "int" or self.is_strlen(pv)):
@@ -578,6 +625,30 @@ class Builder:
         if k == "ptup" and isinstance(pv, dict) and pv.get("k") == "tup" and len(pv["elems"]) == len(p.get("pats", [])):
             return self._match_all(list(zip(p["pats"], pv["elems"])), fr, tk, fk)
         raise Unrecognised("pattern not understood: " + H.render_pat(p), p)
+
+    def _first_pat(self, p: Any, fo: str, fr: Frame, tk, fk) -> Any:
+        """pattern inside Some(..) matched against the first byte / char of s (s non-empty on this branch is implied by the atom)."""
+        while isinstance(p, dict) and p.get("k") in ("pref", "pderef"):
+            p = p["pat"]
+        k = p.get("k") if isinstance(p, dict) else None
+        if k == "wild" or (k == "bind" and not p.get("sub")):
+            # Some(_): s is not empty
+            return self.br(("slen", "==", 0), fk(fr), tk(fr), p)
+        if k == "por":
+            out = fk(fr)
+            tk_m = _memo1(tk)
+            for alt in reversed(p["pats"]):
+                out = self._first_pat(alt, fo, fr, tk_m, (lambda o: (lambda _f: o))(out))
+            return out
+        if k == "plit":
+            lit = p["lit"]
+            if lit.get("ty") == "byte" and fo == "byte":
+                return self.br(("sb0", int(lit["v"])), tk(fr), fk(fr), p)
+            if lit.get("ty") == "char" and fo == "char":
+                return self.br(("spre", lit["v"]), tk(fr), fk(fr), p)
+            if lit.get("ty") == "int" and fo == "byte":
+                return self.br(("sb0", int(lit["v"])), tk(fr), fk(fr), p)
+        raise Unrecognised("pattern on the first byte/char of the input is not a literal: " + H.render_pat(p), p)
 
     def _match_all(self, pairs: list, fr: Frame, tk, fk) -> Any:
         if not pairs:
@@ -821,6 +892,11 @@ def holds(atom: tuple, rep: dict) -> bool:
             return _cmp(rep["int"], atom[1], atom[2])
         if k == "is":
             return rep["is"][atom[1]] == atom[2]
+        if k == "sb0":
+            b = rep["s"].encode("utf-8")
+            return bool(b) and b[0] == atom[1]
+        if k == "spre":
+            return rep["s"].startswith(atom[1])
     except KeyError:
         raise Unrecognised("the function branches on %s, which is not an input of the table being extracted" % (atom,))
     raise Unrecognised("unknown atom %r" % (atom,))
@@ -938,6 +1014,58 @@ def string_reps(ats: List[tuple], extra_lits: List[str] = ()) -> List[Tuple[str,
                 break
         else:
             raise Unrecognised("cannot build a non-matching string of length %d" % n)
+    # prefix / first-byte atoms (case sensitive): they split the fold classes by the case pattern of the leading characters
+    # and the non-matching strings by their prefix
+    prefixes: List[str] = []
+    for a in ats:
+        if a[0] == "spre" and a[1] not in prefixes:
+            prefixes.append(a[1])
+        if a[0] == "sb0":
+            c = _char_with_first_byte(a[1])
+            if c is not None and c not in prefixes:
+                prefixes.append(c)
+    if prefixes:
+        plen = max(len(q) for q in prefixes)
+        if plen > 4:
+            raise Unrecognised("prefix test longer than 4 characters")
+        for fold, ls in classes.items():
+            base = ls[0]
+            head = [i for i, c in enumerate(base[:plen]) if c.isascii() and c.isalpha()]
+            tail = [i for i, c in enumerate(base) if i >= plen and c.isascii() and c.isalpha()]
+            for mask in range(1 << len(head)):
+                cs = list(base)
+                for j, i in enumerate(head):
+                    cs[i] = cs[i].upper() if (mask >> j) & 1 else cs[i].lower()
+                cands = ["".join(cs)]
+                if tail:
+                    for flip in (tail[:1], tail, tail[-1:]):
+                        c2 = list(cs)
+                        for i in flip:
+                            c2[i] = c2[i].swapcase()
+                        cands.append("".join(c2))
+                    # as many rest patterns as needed to leave the literal set
+                    for m2 in range(1, min(1 << len(tail), len(litset) + 2)):
+                        c2 = list(cs)
+                        for j, i in enumerate(tail[:30]):
+                            if (m2 >> j) & 1:
+                                c2[i] = c2[i].swapcase()
+                        cands.append("".join(c2))
+                for cand in cands:
+                    if cand not in litset:
+                        if ("othercase", cand) not in out:
+                            out.append(("othercase", cand))
+                        break
+        firsts = set(q[0] for q in prefixes)
+        fill = next((f_ for f_ in ("\x01", "~", "\x02", "#") if f_ not in firsts), None)
+        if fill is None:
+            raise Unrecognised("no filler character outside the tested prefixes")
+        for q in prefixes:
+            qb = len(q.encode("utf-8"))
+            for n in sorted(lens | {qb, qb + 1}):
+                if n >= qb:
+                    sx = q + fill * (n - qb)
+                    if ascii_fold(sx) not in folds and ("nomatch", sx) not in out:
+                        out.append(("nomatch-prefix", sx))
     # multi-byte: a non-matching string whose char count differs from its byte length, for every length >= 2
     for n in sorted(lens):
         if n >= 2:
@@ -945,6 +1073,27 @@ def string_reps(ats: List[tuple], extra_lits: List[str] = ()) -> List[Tuple[str,
             if ascii_fold(s) not in folds:
                 out.append(("nomatch-mb", s))
     return out
+
+
+def _char_with_first_byte(b: int) -> Optional[str]:
+    """A character whose UTF-8 encoding starts with byte b (None for continuation / invalid lead bytes)."""
+    if b < 0x80:
+        return chr(b)
+    if 0xC2 <= b <= 0xDF:
+        return bytes([b, 0x80]).decode("utf-8")
+    if 0xE0 <= b <= 0xEF:
+        for second in (0xA0, 0x80):
+            try:
+                return bytes([b, second, 0x80]).decode("utf-8")
+            except UnicodeDecodeError:
+                pass
+    if 0xF0 <= b <= 0xF4:
+        for second in (0x90, 0x80):
+            try:
+                return bytes([b, second, 0x80, 0x80]).decode("utf-8")
+            except UnicodeDecodeError:
+                pass
+    return None
 
 
 def int_reps(ats: List[tuple], extra: List[int] = (), lo: Optional[int] = None, hi: Optional[int] = None) -> List[int]:
